@@ -760,7 +760,7 @@ func ruleC07Records(c *Ctx) {
 	// the merge block (success exit of the evaluator)
 	var mergeBlock *ssa.BasicBlock
 	mergeFn := c.P.MethodOf("annotations", "merge")
-	core.EachInstr(m.E, func(i ssa.Instruction) {
+	c.eachFamOwn(m.E, func(i ssa.Instruction) {
 		if call, ok := i.(*ssa.Call); ok && call.Call.StaticCallee() == mergeFn && isParamOrLoad(call.Call.Args[0], m.annsParam) {
 			mergeBlock = call.Block()
 		}
@@ -772,7 +772,7 @@ func ruleC07Records(c *Ctx) {
 	// the map handed to noteProperties (the per-schema evaluated-property set)
 	var evalPropsCell *ssa.Alloc
 	var notePropsBlocks = map[*ssa.BasicBlock]bool{}
-	core.EachInstr(m.E, func(i ssa.Instruction) {
+	c.eachFamOwn(m.E, func(i ssa.Instruction) {
 		if call, ok := i.(*ssa.Call); ok {
 			if callee := call.Call.StaticCallee(); callee != nil && core.FuncName(callee) == "(*annotations).noteProperties" && m.isFrameAnns(call.Call.Args[0]) {
 				notePropsBlocks[call.Block()] = true
@@ -855,7 +855,7 @@ func ruleC07Records(c *Ctx) {
 				// recorded in the evaluator body after the loop that runs the closure
 				through := recordBlocks(m.E, kind)
 				var at ssa.Instruction
-				core.EachInstr(m.E, func(i ssa.Instruction) {
+				c.eachFamOwn(m.E, func(i ssa.Instruction) {
 					if call, ok := i.(ssa.CallInstruction); ok {
 						for _, a := range append([]ssa.Value{call.Common().Value}, call.Common().Args...) {
 							for _, srcv := range traceSources(a) {
